@@ -14,7 +14,8 @@ A description is plain JSON data:
   inline = ['t', s] | ['span', style, [inline]] | ['a', href, [inline]] | ['s', c|None] | ['tab'] | ['br']
          | ['bm', name] | ['bms', name] | ['bme', name] | ['bmref', name, s]
          | ['note', class, citation, [block]] | ['frame', anchor, style, ['textbox', [block]] | ['image']]
-         | ['shape', kind, anchor, style, [block]]     (draw:rect / draw:ellipse / draw:custom-shape holding paragraphs)
+         | ['shape', kind, anchor, style, [block]]     (draw:rect / ellipse / circle / line / custom-shape holding paragraphs;
+                                                        kind 'g': a draw:g group holding a draw:rect with the paragraphs)
 
   block-level containers (the places where the schema allows text-content: office:text, text:section, table:table-cell,
   draw:text-box, text:note-body, text:index-body / text:index-title):
@@ -52,7 +53,8 @@ INDEX = {'toc': ('table-of-content', 'table-of-content-source'), 'alpha': ('alph
          'illus': ('illustration-index', 'illustration-index-source'), 'tabidx': ('table-index', 'table-index-source'),
          'objidx': ('object-index', 'object-index-source'), 'user': ('user-index', 'user-index-source'),
          'bib': ('bibliography', 'bibliography-source')}
-SHAPES = {'rect': 'rect', 'ellipse': 'ellipse', 'custom': 'custom-shape'}
+SHAPES = {'rect': 'rect', 'ellipse': 'ellipse', 'custom': 'custom-shape', 'circle': 'circle', 'line': 'line', 'g': 'g'}
+SHAPES_UNLISTED = ('line', 'g')        # shapes with text that odf2moinmoin's CONTAINER_TAGS (af61005) does not list
 SAFE = set(u'abcdefghijklmnopqrstuvwxyzABCDEFGHIJKLMNOPQRSTUVWXYZ0123456789_ .#:/-@')
 
 
@@ -227,7 +229,7 @@ class Gen(object):
         blocks = []
         for _ in range(r.choice([0, 1, 1, 2])):
             blocks.append(self.para(depth + 1, innote) if r.random() < 0.8 else self.lst(depth + 1, innote))
-        return ['shape', r.choice(sorted(SHAPES)), r.choice([None, 'paragraph', 'char', 'as-char', 'page']),
+        return ['shape', r.choice(['rect', 'ellipse', 'custom', 'rect', 'ellipse', 'custom', 'circle', 'line', 'g']), r.choice([None, 'paragraph', 'char', 'as-char', 'page']),
                 r.choice([None, None, self.name(None, 0.6)]), blocks]
 
     def index(self, depth, innote=False):
@@ -522,12 +524,19 @@ def build(spec):
                 if it[3][0] in ('textbox', 'both'):
                     tb = draw.TextBox(); f.addElement(tb); blocks(tb, it[3][1])
             elif k == 'shape':
-                cls = {'rect': draw.Rect, 'ellipse': draw.Ellipse, 'custom': draw.CustomShape}[it[1]]
-                f = cls(width=u'2cm', height=u'1cm')
+                if it[1] == 'line':
+                    f = draw.Line(x1=u'0cm', y1=u'0cm', x2=u'2cm', y2=u'1cm')
+                elif it[1] == 'g':
+                    f = draw.G()
+                else:
+                    cls = {'rect': draw.Rect, 'ellipse': draw.Ellipse, 'custom': draw.CustomShape, 'circle': draw.Circle}[it[1]]
+                    f = cls(width=u'2cm', height=u'1cm')
                 raw(f, 'text', 'anchor-type', it[2]); raw(f, 'draw', 'style-name', it[3])
-                if kind == 'pres':
+                if kind == 'pres' and it[1] not in SHAPES_UNLISTED:
                     raw(f, 'svg', 'x', u'1cm'); raw(f, 'svg', 'y', u'1cm')
                 parent.addElement(f)
+                if it[1] == 'g':
+                    inner = draw.Rect(width=u'2cm', height=u'1cm'); f.addElement(inner); f = inner
                 blocks(f, it[4])
             else:
                 raise ValueError('inline %r' % (k,))
@@ -616,8 +625,9 @@ def build(spec):
 # ---------------------------------------------------------------- the independent reading of a description
 # classes of block-level containers whose text a converter may lose as a whole (MoinMoin: m-…; a run carries the flag of
 # the OUTERMOST such container only), and the class of paragraph text standing directly in front of a drawing shape (XHTML)
+# - repaired in /repo by af61005 (MoinMoin: CONTAINER_TAGS) and e7e9e0f (XHTML: s_draw_shape); the flags NAME a regression
 M_LOST = ('m-top-frame', 'm-top-shape', 'm-nested-shape', 'm-top-index', 'm-nested-index',
-          'm-top-numbered-paragraph', 'm-nested-numbered-paragraph')
+          'm-top-numbered-paragraph', 'm-nested-numbered-paragraph', 'm-top-shape-unlisted', 'm-nested-shape-unlisted')
 X_LOST = ('x-pending-before-shape',)
 
 
@@ -719,7 +729,7 @@ def visible(spec):
                     for p in pend:
                         p[3].add('x-pending-before-shape')
                     del pend[:]
-                blocks(it[4], out, _mark(flags, 'm-nested-shape'), inbox=True)
+                blocks(it[4], out, _mark(flags, 'm-nested-shape' + ('-unlisted' if it[1] in SHAPES_UNLISTED else '')), inbox=True)
                 out.append(('x',))
 
     def blocks(items, out, flags, inbox=False, insection=False, top=False):
@@ -729,7 +739,7 @@ def visible(spec):
             if k == 'frame':
                 inl([b], out, 0, _mark(flags, 'm-top-frame') if top else flags, [])
             elif k == 'shape':
-                blocks(b[4], out, _mark(flags, 'm-top-shape' if top else 'm-nested-shape'), inbox=True)
+                blocks(b[4], out, _mark(flags, ('m-top-shape' if top else 'm-nested-shape') + ('-unlisted' if b[1] in SHAPES_UNLISTED else '')), inbox=True)
             elif k == 'index':
                 f2 = _mark(flags, 'm-top-index' if top else 'm-nested-index')
                 if b[3] is not None:
@@ -885,11 +895,21 @@ class Ser(object):
                     self.nl(depth + 1); self.open('draw:text-box'); self.blocks(it[3][1], depth + 2); self.nl(depth + 1); self.close('draw:text-box')
                 self.nl(depth); self.close('draw:frame')
             elif k == 'shape':
-                a = [('svg:width', u'2cm'), ('svg:height', u'1cm'), ('text:anchor-type', it[2]), ('draw:style-name', it[3])]
-                if self.spec['kind'] == 'pres':
-                    a += [('svg:x', u'1cm'), ('svg:y', u'1cm')]
+                size = [('svg:width', u'2cm'), ('svg:height', u'1cm')]
+                a = [('text:anchor-type', it[2]), ('draw:style-name', it[3])]
+                if it[1] == 'line':
+                    a = [('svg:x1', u'0cm'), ('svg:y1', u'0cm'), ('svg:x2', u'2cm'), ('svg:y2', u'1cm')] + a
+                elif it[1] != 'g':
+                    a = size + a
+                    if self.spec['kind'] == 'pres':
+                        a += [('svg:x', u'1cm'), ('svg:y', u'1cm')]
                 nm = 'draw:' + SHAPES[it[1]]
-                self.open(nm, a); self.blocks(it[4], depth + 1); self.nl(depth); self.close(nm)
+                self.open(nm, a)
+                if it[1] == 'g':
+                    self.nl(depth + 1); self.open('draw:rect', size); self.blocks(it[4], depth + 2); self.nl(depth + 1); self.close('draw:rect')
+                else:
+                    self.blocks(it[4], depth + 1)
+                self.nl(depth); self.close(nm)
 
     def blocks(self, items, depth):
         for b in items:
